@@ -13,10 +13,17 @@
   Import-free (core Lean only): linked into the native driver.
 -/
 import WW.Cw.Arith
+import WW.Gen.Variants
 namespace WW.Auth
-open WW
+open WW WW.Gen
 
-/-! ## The fifteen contracts and their messages -/
+/-! ## The fifteen contracts and their messages
+
+  The `ExecuteMsg` variant types `FactoryMsg`, `PairMsg`, `TrioMsg`, `RouterMsg`, `IncentiveFactoryMsg`,
+  `IncentiveMsg`, `FrontendHelperMsg`, `VaultFactoryMsg`, `VaultMsg`, `VaultRouterMsg`, `FeeCollectorMsg`,
+  `FeeDistributorMsg`, `WhaleLairMsg`, `EpochManagerMsg` are REGENERATED from the Rust enums on every
+  run (WW/Gen/Variants.lean, tools/extract_variants.py); every table below matches on them without a
+  wildcard, so a variant added to or removed from the Rust breaks this file. -/
 
 inductive Contract where
   | terraswap_factory | terraswap_pair | stableswap_3pool | terraswap_router | terraswap_token
@@ -25,86 +32,10 @@ inductive Contract where
   | fee_collector | fee_distributor | whale_lair | epoch_manager
 deriving DecidableEq, Repr
 
-/-- packages/white-whale-std/src/pool_network/factory.rs -/
-inductive FactoryMsg where
-  | UpdateConfig | UpdatePairConfig | UpdateTrioConfig | CreatePair | CreateTrio
-  | AddNativeTokenDecimals | MigratePair | MigrateTrio | RemovePair | RemoveTrio
-deriving DecidableEq, Repr
-
-/-- pool_network/pair.rs (`Receive` split by `Cw20HookMsg`) -/
-inductive PairMsg where
-  | Receive_Swap | Receive_WithdrawLiquidity | ProvideLiquidity | WithdrawLiquidity | Swap
-  | UpdateConfig | CollectProtocolFees
-deriving DecidableEq, Repr
-
-/-- pool_network/trio.rs (`Receive` split by `Cw20HookMsg`) -/
-inductive TrioMsg where
-  | Receive_Swap | Receive_WithdrawLiquidity | ProvideLiquidity | WithdrawLiquidity | Swap
-  | UpdateConfig | CollectProtocolFees
-deriving DecidableEq, Repr
-
-/-- pool_network/router.rs -/
-inductive RouterMsg where
-  | Receive_ExecuteSwapOperations | ExecuteSwapOperations | ExecuteSwapOperation
-  | AssertMinimumReceive | AddSwapRoutes | RemoveSwapRoutes
-deriving DecidableEq, Repr
-
 /-- cw20::Cw20ExecuteMsg (terraswap_token forwards to cw20-base) -/
 inductive TokenMsg where
   | Transfer | Burn | Send | IncreaseAllowance | DecreaseAllowance | TransferFrom | SendFrom
   | BurnFrom | Mint | UpdateMinter | UpdateMarketing | UploadLogo
-deriving DecidableEq, Repr
-
-/-- pool_network/incentive_factory.rs -/
-inductive IncentiveFactoryMsg where
-  | CreateIncentive | UpdateConfig | MigrateIncentives
-deriving DecidableEq, Repr
-
-/-- pool_network/incentive.rs -/
-inductive IncentiveMsg where
-  | TakeGlobalWeightSnapshot | OpenFlow | CloseFlow | OpenPosition | ExpandPosition | ClosePosition
-  | Withdraw | Claim | ExpandFlow
-deriving DecidableEq, Repr
-
-/-- pool_network/frontend_helper.rs -/
-inductive FrontendHelperMsg where
-  | Deposit | UpdateConfig
-deriving DecidableEq, Repr
-
-/-- vault_network/vault_factory.rs -/
-inductive VaultFactoryMsg where
-  | CreateVault | MigrateVaults | RemoveVault | UpdateVaultConfig | UpdateConfig
-deriving DecidableEq, Repr
-
-/-- vault_network/vault.rs (`Receive` split by `Cw20HookMsg`, `Callback` by `CallbackMsg`) -/
-inductive VaultMsg where
-  | Deposit | Withdraw | FlashLoan | CollectProtocolFees | UpdateConfig | Receive_Withdraw
-  | Callback_AfterTrade
-deriving DecidableEq, Repr
-
-/-- vault_network/vault_router.rs -/
-inductive VaultRouterMsg where
-  | FlashLoan | UpdateConfig | NextLoan | CompleteLoan
-deriving DecidableEq, Repr
-
-/-- fee_collector.rs -/
-inductive FeeCollectorMsg where
-  | CollectFees | AggregateFees | ForwardFees | UpdateConfig
-deriving DecidableEq, Repr
-
-/-- fee_distributor.rs -/
-inductive FeeDistributorMsg where
-  | NewEpoch | Claim | UpdateConfig
-deriving DecidableEq, Repr
-
-/-- whale_lair.rs -/
-inductive WhaleLairMsg where
-  | Bond | Unbond | Withdraw | UpdateConfig
-deriving DecidableEq, Repr
-
-/-- epoch_manager/epoch_manager.rs -/
-inductive EpochManagerMsg where
-  | CreateEpoch | AddHook | RemoveHook | UpdateConfig
 deriving DecidableEq, Repr
 
 /-- a message addressed to one of the fifteen contracts -/
@@ -249,17 +180,25 @@ def requires : Msg → Option AuthRule
   | .terraswap_pair .Receive_Swap => some .poolAssetToken
   | .terraswap_pair .Receive_WithdrawLiquidity => some .lpToken
   | .terraswap_pair .UpdateConfig => some .owner
-  | .terraswap_pair _ => none
+  | .terraswap_pair .ProvideLiquidity => none
+  | .terraswap_pair .WithdrawLiquidity => none
+  | .terraswap_pair .Swap => none
+  | .terraswap_pair .CollectProtocolFees => none
   -- stableswap_3pool/src/commands.rs
   | .stableswap_3pool .Receive_Swap => some .poolAssetToken
   | .stableswap_3pool .Receive_WithdrawLiquidity => some .lpToken
   | .stableswap_3pool .UpdateConfig => some .owner
-  | .stableswap_3pool _ => none
+  | .stableswap_3pool .ProvideLiquidity => none
+  | .stableswap_3pool .WithdrawLiquidity => none
+  | .stableswap_3pool .Swap => none
+  | .stableswap_3pool .CollectProtocolFees => none
   -- terraswap_router/src/{contract,operations}.rs — AssertMinimumReceive has NO sender check
   | .terraswap_router .ExecuteSwapOperation => some .self
   | .terraswap_router .AddSwapRoutes => some .wasmAdmin
   | .terraswap_router .RemoveSwapRoutes => some .wasmAdmin
-  | .terraswap_router _ => none
+  | .terraswap_router .Receive_ExecuteSwapOperations => none
+  | .terraswap_router .ExecuteSwapOperations => none
+  | .terraswap_router .AssertMinimumReceive => none
   -- cw20-base 1.1 contract.rs
   | .terraswap_token .Mint => some .minter
   | .terraswap_token .UpdateMinter => some .minter
@@ -270,37 +209,51 @@ def requires : Msg → Option AuthRule
   | .incentive_factory _ => some .owner
   -- incentive/src/execute/close_flow.rs
   | .incentive .CloseFlow => some .flowCreatorOrFactoryOwner
-  | .incentive _ => none
+  | .incentive .TakeGlobalWeightSnapshot => none
+  | .incentive .OpenFlow => none
+  | .incentive .OpenPosition => none
+  | .incentive .ExpandPosition => none
+  | .incentive .ClosePosition => none
+  | .incentive .Withdraw => none
+  | .incentive .Claim => none
+  | .incentive .ExpandFlow => none
   -- frontend_helper/src/contract.rs
   | .frontend_helper .UpdateConfig => some .owner
-  | .frontend_helper _ => none
+  | .frontend_helper .Deposit => none
   -- vault_factory/src/contract.rs: owner check before the dispatch
   | .vault_factory _ => some .owner
   -- vault/src/execute/{update_config,receive,callback}
   | .vault .UpdateConfig => some .owner
   | .vault .Receive_Withdraw => some .lpToken
   | .vault .Callback_AfterTrade => some .self
-  | .vault _ => none
+  | .vault .Deposit => none
+  | .vault .Withdraw => none
+  | .vault .FlashLoan => none
+  | .vault .CollectProtocolFees => none
   -- vault_router/src/execute/*
   | .vault_router .UpdateConfig => some .owner
   | .vault_router .NextLoan => some .registeredVault
   | .vault_router .CompleteLoan => some .self
-  | .vault_router _ => none
+  | .vault_router .FlashLoan => none
   -- fee_collector/src/commands.rs
   | .fee_collector .UpdateConfig => some .owner
   | .fee_collector .ForwardFees => some .feeDistributor
-  | .fee_collector _ => none
+  | .fee_collector .CollectFees => none
+  | .fee_collector .AggregateFees => none
   -- fee_distributor/src/commands.rs
   | .fee_distributor .UpdateConfig => some .owner
-  | .fee_distributor _ => none
+  | .fee_distributor .NewEpoch => none
+  | .fee_distributor .Claim => none
   -- whale_lair/src/commands.rs
   | .whale_lair .UpdateConfig => some .owner
-  | .whale_lair _ => none
+  | .whale_lair .Bond => none
+  | .whale_lair .Unbond => none
+  | .whale_lair .Withdraw => none
   -- epoch-manager/src/commands.rs (cw_controllers::Admin / Hooks)
   | .epoch_manager .AddHook => some .owner
   | .epoch_manager .RemoveHook => some .owner
   | .epoch_manager .UpdateConfig => some .owner
-  | .epoch_manager _ => none
+  | .epoch_manager .CreateEpoch => none
 
 /-- what the property demands beyond the code: the router's minimum-receive callback is meant to be
     internal ("can only be called internally by the router contract") -/
